@@ -17,13 +17,15 @@ from hypothesis import strategies as st
 
 from .. import gen, genheat
 from ..compare import compare_nets
-from ..recipe import abbreviate, build
+from ..recipe import abbreviate, build, reload_net
 from ..runner import Finding, Outcome, derive_seed, run_given
 
 RULE = ("cases = (recipe, list of 3..8 operations) on one net object. Operations: run(mode, options) with modes hydraulics / "
         "sequential / bidirectional, friction models, both engines, both damping strategies, deliberately failing settings "
         "(iter=1, tol 0, absurd load), matrix-update / reuse options; edit-run-undo of a parameter (load, pipe length, "
-        "in_service, ext-grid pressure); set_user_pf_options; hydraulics followed by mode='heat' from the stored solution. "
+        "in_service, ext-grid pressure, ext-grid junction, pipe end junction); set_user_pf_options; hydraulics followed by "
+        "mode='heat' from the stored solution; the net object pickled and re-loaded / deep-copied / a result column "
+        "re-assigned between two calculations. "
         "Non-trivial = history of length >= 3 that contains a failing run or a mode change. Distinct = distinct case hash.")
 ASSUMPTIONS = ["net.converged and user_pf_options['hyd_flag'] are pipeflow's own bookkeeping and not part of the snapshot",
                "tables starting with '_' (internal data) and 'res_' (results) are outputs"]
@@ -64,7 +66,8 @@ def case_strategy(draw, tier):
     ops = []
     n = draw(st.integers(3, 8))
     for _ in range(n):
-        kind = draw(st.sampled_from(["run", "run", "run", "edit_undo", "user_opts", "overload_run", "hyd_then_heat" if heat else "run"]))
+        kind = draw(st.sampled_from(["run", "run", "run", "edit_undo", "user_opts", "overload_run", "hyd_then_heat" if heat else "run",
+                                     "reload"]))
         if kind == "run":
             ops.append(draw(run_op(heat)))
         elif kind == "edit_undo":
@@ -74,6 +77,9 @@ def case_strategy(draw, tier):
             ops.append({"op": "user_opts", "opts": draw(st.sampled_from([{"friction_model": "swamee-jain"}, {"iter": 2}, {"tol_m": 1e-7},
                                                                           {"ambient_temperature": 280.0}, {"use_numba": False}, {}])),
                         "reset": draw(st.booleans())})
+        elif kind == "reload":
+            # the user pickles / copies the net or post-processes a result table between two calculations
+            ops.append({"op": "reload", "how": draw(st.sampled_from(["pickle", "deepcopy", "touch"]))})
         elif kind == "overload_run":
             ops.append({"op": "edit_undo", "k": draw(st.integers(0, 50)), "what": "load", "factor": 1e7, "run": draw(run_op(heat))["opts"]})
         else:
@@ -259,6 +265,7 @@ def evaluate(case):
     statuses = []
     modes_seen = []
     reuse_seen = []
+    reloads = []
     snap0 = snapshot(net)
 
     def fresh():
@@ -314,6 +321,9 @@ def evaluate(case):
             check_run(op["run"], "run_with_edit", step)
             undo()
             check_run(op["run"], "run_after_undo", step)
+        elif op["op"] == "reload":
+            net = reload_net(net, op["how"])
+            reloads.append(op["how"])
         elif op["op"] == "user_opts":
             from pandapipes.pf.pipeflow_setup import set_user_pf_options
             if op["reset"]:
@@ -358,6 +368,7 @@ def evaluate(case):
     for op in case["ops"]:
         if op["op"] == "edit_undo":
             labels.add("edit:" + op["what"])
+    labels |= {"between_runs:" + h for h in reloads}
     return Outcome(findings=f, labels=labels, nontrivial=len(statuses) >= 3 and (failing or mode_change),
                    sample={"recipe": abbreviate(case["recipe"]), "ops": case["ops"], "statuses": statuses})
 
